@@ -36,6 +36,10 @@ def base_states():
         ('empty', tm.EMPTY),
         ('mid-reversed', state(tuple(reversed(ON[2:9])), PN[1:7])),
         ('identical-rows', (ON[:8], PN[:4], frozenset((o, p) for o in ON[:8] for p in PN[:2]))),
+        # most names empty on both axes, the few used ones scattered and not in name order:
+        # remove_empty_* drops more than half of a long axis and keeps several names
+        ('mostly-empty', (ON[:9], PN[:7],
+                          frozenset((o, p) for o in (ON[6], ON[1], ON[3]) for p in (PN[5], PN[0])))),
     ]
 
 
